@@ -28,8 +28,12 @@ pub fn generate(prop: &str, tier: &str, seed: u64, out: &str, shards: usize, his
             }
         }
         "C10" | "C11" => crate::checks2::gen_shapes(&asm, &mut mach, &mut rng, &mut sh, histories.expect("shape file"), thorough),
+        "C19" => {
+            crate::checks2::gen_c19(&asm, &mut rng, &mut sh, histories.expect("schedule file"), thorough);
+            crate::checks3::gen_repeats(&mut rng, &mut sh, out, thorough);
+        }
         "C13" => {
-            crate::checks2::gen_macros(&asm, &mut sh, histories.expect("macro case file"));
+            crate::checks2::gen_macros(&asm, &mut sh, histories.expect("macro case file"), out);
             let depths: Vec<usize> = if thorough { vec![1, 2, 8, 64, 256, 1024, 4096] } else { vec![1, 2, 8, 32, 64] };
             crate::checks2::gen_chains(&mut sh, &depths);
         }
